@@ -308,23 +308,26 @@ PROPS = {
         "assumes": ["whole-second datetimes"],
     },
     "C11": {
-        "level_text": "partial: kernel-checked theorem (exact reals) that the phase is in [0, 28) for "
-                      "every date, plus the same last stage checked in IEEE binary64 for all 360 integer "
+        "level_text": "partial: kernel-checked theorems (exact reals) that for every date the phase is in "
+                      "[0, 28) and that it advances, circularly, by between 0.71 and 1.19 per calendar day "
+                      "for every pair of consecutive dates 0001-9999 (Lipschitz bound on the truncated "
+                      "elongation series, the exact one-per-day step of the Julian day, truncation to whole "
+                      "degrees); the last stage is also checked in IEEE binary64 for all 360 integer "
                       "elongations by kernel evaluation (decide +kernel, no native_decide); the model is "
-                      "compared with the implementation on ALL 3 652 059 dates on every run. Daily "
-                      "advance and agreement with an independent elongation are not theorems.",
+                      "compared with the implementation on ALL 3 652 059 dates on every run. Agreement "
+                      "with an independent elongation is not a theorem.",
         "level_note": "The exhaustive date sweep is correspondence (sampling of a finite domain, complete), "
-                      "not a proof. phase_daily_advance is left unproved (DESIGN §7 C11 stretch).",
-        "lean_modules": ["Astral.Props.C11", "Astral.Props.C11Float"],
+                      "not a proof.",
+        "lean_modules": ["Astral.Props.C11", "Astral.Props.C11Float", "Astral.Props.C11Advance"],
         "theorems": [
             "Astral.C11.elongation_range", "Astral.C11.last_stage", "Astral.C11.phase_range",
-            "Astral.C11Float.phase_table",
+            "Astral.C11Float.phase_table", "Astral.C11Advance.elongation_eq",
+            "Astral.C11Advance.Eraw_step", "Astral.C11Advance.phase_daily_advance",
         ],
         "groups": [G("corr_moon", "moon_phase", 3000, 20000, bulk_quick=["phase_all_dates_bulk"],
                      bulk_thorough=["phase_all_dates_bulk"]),
                    G("corr_julian", "julian", 1200, 20000)],
-        "unproved": ["daily advance in (0.7, 1.3) for every date", "agreement with an independent "
-                     "lunar/solar elongation to 0.25"],
+        "unproved": ["agreement with an independent lunar/solar elongation to 0.25"],
         "assumes": [],
     },
     "C12": {
